@@ -15,7 +15,7 @@ rsync -a --exclude 'target*' --exclude 'fuzz' /verif/harness/ "$H/"
 grep -rl '/repo/' "$H" --include=Cargo.toml | xargs sed -i "s#/repo/#$WT/#g"
 SRC=$(ls "$H"/*/src/bin/$BIN.rs | head -1); CRATE=$(echo "$SRC" | sed "s#$H/##" | cut -d/ -f1)
 # reuse a shared target dir for scratch evaluations to avoid full rebuilds
-export CARGO_TARGET_DIR=/tmp/seeded-eval-target
+export CARGO_TARGET_DIR="${EVAL_TARGET:-/tmp/seeded-eval-target}"
 # every scratch copy has its own paths, so artefacts pile up: start afresh beyond 15 GB
 [ -d "$CARGO_TARGET_DIR" ] && [ "$(du -sm "$CARGO_TARGET_DIR" | cut -f1)" -gt 15000 ] && rm -rf "$CARGO_TARGET_DIR"
 ( cd "$H" && CARGO_NET_OFFLINE=true cargo build --release --offline -p "$CRATE" --bin "$BIN" ) > "$H/build.log" 2>&1 || { echo "BUILD FAILED"; tail -30 "$H/build.log"; exit 2; }
